@@ -8,6 +8,7 @@ import (
 	"time"
 
 	"verif/harness/choice"
+	"verif/harness/simsched"
 	"verif/harness/wproto"
 )
 
@@ -41,7 +42,7 @@ func runCase(t *testing.T, c *Case, src, sched *choice.Source, out *wproto.Out, 
 	}
 	if c.Kind == "concurrent_export" {
 		fs = runConcurrentExport(t, src, sched, st)
-		c.Sched = sched.Tape()
+		c.Sched, c.Pol = sched.Tape(), sched.AuxTape()
 	}
 	c.Tape = src.Tape()
 	var sigs []string
@@ -78,6 +79,11 @@ func runCase(t *testing.T, c *Case, src, sched *choice.Source, out *wproto.Out, 
 		out.Sample(st.Sample, 12)
 	}
 	out.Remember(c)
+	simsched.FlushTotals(out.Count, func(name string, n int64) {
+		if n > out.Counters[name] {
+			out.Counters[name] = n
+		}
+	})
 	out.Tick(512)
 }
 
@@ -105,7 +111,7 @@ func TestWorker(t *testing.T) {
 			if err := json.Unmarshal(raw, &c); err != nil {
 				t.Fatal(err)
 			}
-			runCase(t, &c, choice.Replay(c.Tape), choice.Replay(c.Sched), out, i)
+			runCase(t, &c, choice.Replay(c.Tape), choice.ReplayAux(c.Sched, c.Pol), out, i)
 		}
 		out.Finish("done", len(job.Cases))
 	case "dump":
